@@ -1147,7 +1147,7 @@ func freshCall(c *core.Ctx, call *ssa.Call, idx, depth int, why *string) bool {
 func freshResultRule(R string) RuleFunc {
 	return func(c *core.Ctx) {
 		c.Rule(R, "the slice a public Example() or Enum.Values() hands out is freshly allocated on every path (make, append to a nil/fresh slice, string conversion, a JSON encoder's result, or a callee with the same property - traced through up to 6 calls and go/ssa's result slots): never the Data() of a Bytes, which is the file content itself. A caller that edits its result otherwise edits the schema text: the next Example(), Check() or error rendering sees the edited text")
-		c.Floor(R, 3)
+		c.Floor(R, 4)
 		for _, name := range []string{"(*notations/jschema.JSchema).Example", "(*notations/regex.RSchema).Example", "(*rules/enum.Enum).Values"} {
 			var f *ssa.Function
 			for g := range c.P.AllFuncs {
@@ -1167,6 +1167,26 @@ func freshResultRule(R string) RuleFunc {
 				}
 			}
 			c.Check(ok, R, name, c.P.Pos(f.Pos()), "the slice returned by "+name+" is freshly allocated on every path", "a returned value is not fresh: "+why)
+		}
+		// the elements of Values() carry bytes of their own, not windows into the rule text
+		if d := c.P.FindDecl("(*rules/enum.Enum).Values"); d == nil {
+			c.Unresolved(R, "(*rules/enum.Enum).Values")
+		} else {
+			copied := false
+			inspectDeep(c, d, 1, func(_ *core.DeclSite, n ast.Node) bool {
+				as, ok := n.(*ast.AssignStmt)
+				if !ok || len(as.Lhs) != 1 || len(as.Rhs) != 1 {
+					return true
+				}
+				if se, isSel := ast.Unparen(as.Lhs[0]).(*ast.SelectorExpr); isSel && se.Sel.Name == "Value" {
+					r := core.ExprStr(as.Rhs[0])
+					if strings.Contains(r, "append(") && strings.Contains(r, ".Data()...") && !strings.Contains(r, "append("+core.ExprStr(se.X)) {
+						copied = true
+					}
+				}
+				return true
+			})
+			c.Check(copied, R, "(*rules/enum.Enum).Values:bytes", c.P.Pos(d.Decl.Pos()), "every returned value gets a copy of its bytes (append to a fresh slice of v.Value.Data())", "the returned values share their bytes with the text of the rule: a caller that edits a value edits the rule (a later Values(), Check() or GetAST() sees other values)")
 		}
 	}
 }
